@@ -52,7 +52,9 @@ def generate(ctx):
                # step time reached through the dt setter after construction instead of the constructor
                "built_dt": rng.choice([None, None, None, 2 * dt, 0.5 * dt, dt + 0.25]),
                # clear() in the middle of the run: everything before it equals the resting state from then on
-               "clear_at": rng.choice([None, None, 3, 5, 8]), "via_partial": rng.random() < 0.4}
+               "clear_at": rng.choice([None, None, 3, 5, 8]), "via_partial": rng.random() < 0.4,
+               # built with another maximum delay: half a step shorter (same step count when dk is whole), one step longer, zero
+               "built_delay": rng.choice([None, None, None, max(dk - 0.5, 0.0) * dt, (dk + 1) * dt, 0.0])}
 
 
 def _build(desc, inplace):
@@ -61,6 +63,10 @@ def _build(desc, inplace):
                   spike_overbound=desc["sob"], batch_size=desc["B"], inplace=inplace)
     shape = tuple(desc["shape"])
     final_dt = desc["dt"]
+    final_delay = desc["delay"]
+    if desc.get("built_delay") is not None:
+        desc = {**desc, "delay": desc["built_delay"]}
+        common["delay"] = desc["built_delay"]
     if desc.get("built_dt"):
         desc = {**desc, "dt": desc["built_dt"]}
     if desc.get("via_partial"):
@@ -86,6 +92,8 @@ def _build(desc, inplace):
                                      spike_interp_mode=desc["interp"], **common)
     if s.dt != final_dt:
         s.dt = final_dt
+    if desc.get("built_delay") is not None and desc["built_delay"] != final_delay:
+        s.delay = final_delay        # the maximum delay reached through the documented setter (also within one step count)
     s.to(torch.float64)
     return s
 
@@ -229,6 +237,8 @@ def run_case(ctx, desc):
         twin = _build(desc, not desc["inplace"])
     except Exception as e:  # noqa: BLE001
         return ctx.violation(ctx.exc_signature(e, f"construct.{kind}"), f"{type(e).__name__}: {str(e)[:140]}", desc)
+    if desc.get("built_delay") is not None and desc["built_delay"] != desc["delay"]:
+        ctx.count("synapses_redelayed_through_the_setter")
     orc = _Oracle(desc, full)
     T = desc["T"]
     tag = f"{kind}/dt{desc['dt']}/d{desc['delay_steps']}/tol{desc['tol']}/{desc['interp']}"
